@@ -17,7 +17,21 @@ MEM_ASSUME = [
 ]
 
 # Which property owns which observed field of a domain (a mismatch in a field is charged to its owners).
+INFL_ASSUME = [
+    "one model step = one external event followed by running the woken tasks to quiescence (what a current-thread runtime does); "
+    "the check-then-act window inside one poll of a fetch task on a multi-threaded runtime is not modelled",
+    "the in-flight entry and its open leader task are one object in the model (a closed leader has no further effect)",
+    "memory-only level (Cache::get_or_fetch_inner with harness-owned disk / origin futures); the hybrid level is covered by the "
+    "hybrid campaigns",
+]
+
 FIELD_PROPS = {
+    "infl": {
+        "started": ["C06", "C11"],
+        "dstarted": ["C06"],
+        "callers": ["C06", "C11"],
+        "cache": ["C06", "C11"],
+    },
     "mem": {
         "ret": ["C02", "C17", "C13", "C18", "C14"],
         "leaves": ["C13", "C05", "C14", "C18"],
@@ -172,6 +186,48 @@ PROPS = {
         "assumptions": MEM_ASSUME + ["the two-step handle drop (dec_refs, then lock + release) is modelled as one step; the "
                                      "window between the two halves is outside the model (DESIGN.md §6 C18, F-E)"],
     },
+    "C06": {
+        "domain": "infl",
+        "proof_module": "FoyerProofs.C06",
+        "theorems": [
+            "Foyer.Infl.inv_step", "Foyer.Infl.inv_run", "Foyer.Infl.no_orphan_waiter", "Foyer.Infl.origin_ok_answers_all",
+            "Foyer.Infl.origin_err_answers_all", "Foyer.Infl.next_call_fetches_again", "Foyer.Infl.abort_answers_all",
+            "Foyer.Infl.donated_fetch_used",
+        ],
+        "monitor_props": ["C06"],
+        "campaigns": {
+            "quick": [{"name": "infl-random", "args": ["cases=2500", "maxev=12"]}],
+            "thorough": [{"name": "infl-random", "args": ["cases=80000", "maxev=16"]}],
+        },
+        "nontrivial": r"callers=[^ ]*(val|err|none)",
+        "rule": "random event scripts on the real Cache::get_or_fetch_inner (1-2 keys): callers arrive with/without a disk lookup "
+                "and with/without a fetch closure, disk lookups resolve (hit/miss/error), origin fetches resolve (ok/error), "
+                "explicit insert/remove, callers dropped, the runtime hosting the fetch tasks shut down (tasks cancelled); every "
+                "future is a harness-owned oneshot; after each event the runtime is driven to quiescence and which closures "
+                "started, every caller's state and the cache content are compared with the model; each script ends by resolving "
+                "or dropping everything, after which a pending caller is a hang; non-trivial = some waiter was answered through a "
+                "notifier; distinct = distinct scripts",
+        "trusted_base": TB_COMMON,
+        "assumptions": INFL_ASSUME,
+    },
+    "C11": {
+        "domain": "infl",
+        "proof_module": "FoyerProofs.C11",
+        "theorems": [
+            "Foyer.Infl.insert_answers_waiters", "Foyer.Infl.cached_stable_step", "Foyer.Infl.late_fetch_discarded",
+            "Foyer.Infl.insert_not_overwritten", "Foyer.Infl.inv_step",
+        ],
+        "monitor_props": ["C11"],
+        "campaigns": {
+            "quick": [{"name": "infl-random", "args": ["cases=2500", "maxev=12"]}],
+            "thorough": [{"name": "infl-random", "args": ["cases=80000", "maxev=16"]}],
+        },
+        "nontrivial": r"ev=insert",
+        "rule": "same scripts as C06; non-trivial = contains an explicit insert; the monitor checks that after insert(k,v) the "
+                "cache shows v for k until the next explicit insert/remove of k and that every caller waiting for k received v",
+        "trusted_base": TB_COMMON,
+        "assumptions": INFL_ASSUME,
+    },
     "C05": {
         "domain": "mem",
         "proof_module": "FoyerProofs.C05",
@@ -239,5 +295,21 @@ CLAIMS.update({
             "note": MEM_NOTE + "; is_outdated is definitional in the model (index membership) and tied to the IN_INDEXER flag only "
                     "by the correspondence; the two-step drop race (F-E) is outside the model",
             "technique": "Lean 4 proof (generic protected-record invariants instantiated for the LRU pin list) + trace validation"},
+})
+INFL_NOTE = ("trusted: Lean kernel; axioms propext/Classical.choice/Quot.sound; harness + driver; modelled, not verified: quiescence "
+             "granularity (one event + run-to-quiescence on a current-thread runtime), entry and open leader as one object; the "
+             "check-then-act window inside one poll on a multi-threaded runtime and tokio/mea channel semantics are outside the model")
+CLAIMS.update({
+    "C06": {"text": "Lean 4 theorems over every event sequence of the fetch-coalescing state machine: no caller ever waits outside "
+                    "the flight of its key and every flight awaits a future that has started (hang-freedom as safety); every terminal "
+                    "transition of a leader (success, error, no-fetch, cancellation, explicit insert) answers all its waiters; a "
+                    "failed fetch caches nothing and the next call fetches again; a donated fetch closure is used; at most one open "
+                    "leader per key is structural in the model. Tied to /repo by scripted futures on the real get_or_fetch_inner",
+            "note": INFL_NOTE + "; termination additionally needs the fairness premise 'futures resolve or are dropped'",
+            "technique": "Lean 4 proof (inductive invariant over all event orderings) + trace-validating correspondence with harness-owned futures"},
+    "C11": {"text": "Lean 4 theorems: insert(k,v) answers every waiter of k with v, closes the leader, and from then on k reads v in "
+                    "every reachable state under every event sequence that contains no explicit insert/remove of k — whatever the "
+                    "late fetch resolves to. Tied to /repo by the same scripted-future correspondence",
+            "note": INFL_NOTE, "technique": "Lean 4 proof (inductive invariant + stability lemma) + trace-validating correspondence"},
 })
 NOT_CLAIMED = {}
